@@ -20,6 +20,8 @@ func init() {
 		&Rule{ID: "FS-DEDUP", Doc: "facts enter a fact set only through Insert, which appends only after a full-range structural-equality scan found no equal fact", Run: ruleFSDedup, Min: 2},
 		&Rule{ID: "EN-APPLYALL", Doc: "each iteration applies every rule (full range) to the current facts and merges all new facts before the fixpoint test", Run: ruleENApplyAll, Min: 3},
 		&Rule{ID: "EN-CONSUME", Doc: "Rule.Apply inserts a head instance for every received combination; it leaves its receive loop early only with an error", Run: ruleENConsume, Min: 3},
+		&Rule{ID: "EN-UNIFY", Doc: "the join binds variables by visiting every term position of every body predicate and pairing position j of the predicate with position j of the matched fact", Run: ruleENUnify, Min: 3},
+		&Rule{ID: "EN-EXITS", Doc: "the enumeration goroutine of combine ends only for one of the enumerated reasons", Run: ruleENExits, Min: 5},
 		&Rule{ID: "EN-MATCH", Doc: "Predicate.Match accepts only equal name and arity and, position by position, a variable or an Equal constant", Run: ruleENMatch, Min: 3},
 	)
 }
@@ -138,6 +140,9 @@ func ruleSNKind(p *Prog, r *Reporter) {
 	}
 	sm := p.switchMapConstToConst(ser)
 	lm := p.switchMapConstToConst(ld)
+	for _, bad := range loopSharedAddresses(p, ser) {
+		r.Bad(bad.pos, p.FuncName(ser), "shared address "+bad.what, "the address of a variable declared outside the loop is stored into an object built on every iteration: all "+bad.what+" values end up equal to the last one (every saved policy gets the kind of the last policy)")
+	}
 	for _, k := range []string{"Allow", "Deny"} {
 		r.Check(sm["PolicyKind"+k] == "Policy_"+k, p.Pos(ser.Pos()), p.FuncName(ser), "save PolicyKind"+k, "-> pb.Policy_"+k, "PolicyKind"+k+" is saved as pb."+sm["PolicyKind"+k])
 		r.Check(lm["Policy_"+k] == "PolicyKind"+k, p.Pos(ld.Pos()), p.FuncName(ld), "load Policy_"+k, "-> PolicyKind"+k, "pb.Policy_"+k+" is loaded as "+lm["Policy_"+k]+": allow and deny policies change meaning across a save/load")
@@ -180,8 +185,17 @@ func ruleSNDirty(p *Prog, r *Reporter) {
 				}
 				if k, isC := fs.st.Val.(*ssa.Const); isC && k.Value != nil && k.Value.String() == "true" {
 					if len(tests) > 0 && (tests[0].isNil == fs.st.Block() || tests[0].isNil.Dominates(fs.st.Block())) {
-						// and every later success return passes through it: the store dominates them or is in the same straight line
+						// every return after the successful Run (error returns included) has passed the store
 						okD = true
+						for _, ret := range returnsOf(m) {
+							rb := ret.Block()
+							if rb == fs.st.Block() {
+								continue
+							}
+							if reachAvoiding(tests[0].isNil, rb, blockSet{fs.st.Block(): true}) {
+								okD = false
+							}
+						}
 					}
 				}
 			}
@@ -206,6 +220,28 @@ func ruleSNSyms(p *Prog, r *Reporter) {
 		if f := c.Common().StaticCallee(); f != nil && f.Name() == "convert" && len(c.Common().Args) == 2 {
 			r.Check(p.D(c.Common().Args[1]) == V+".symbols", p.instrPos(c), p.FuncName(ser), "convert with authorizer symbols", "checks/policies interned into the saved table", "a check or policy is interned into "+shortD(c.Common().Args[1])+" but the snapshot saves the authorizer's table")
 		}
+	}
+	// the saved checks and policies must visibly be the result of convert(..., v.symbols) in this function
+	for _, a := range allocsOf(ser, "pb", "AuthorizerPolicies") {
+		for _, fld := range []string{"Checks", "Policies"} {
+			v := litFields(a)[fld]
+			ok := v != nil && dependsOn(v, func(x ssa.Value) bool {
+				c, isC := x.(*ssa.Call)
+				return isC && c.Call.StaticCallee() != nil && c.Call.StaticCallee().Name() == "convert" && len(c.Call.Args) == 2 && p.D(c.Call.Args[1]) == V+".symbols"
+			})
+			r.Check(ok, p.instrPos(a), p.FuncName(ser), "saved "+fld+" interned", "the saved "+fld+" are produced by convert(..., "+V+".symbols)", "cannot show that the saved "+fld+" were interned into the authorizer's symbol table that is saved with them (conversion into a copy of the table loses their symbols)")
+		}
+	}
+	// symbols are read for saving only after everything was interned: the Symbols value is computed after the conversions
+	for _, a := range allocsOf(ser, "pb", "AuthorizerPolicies") {
+		sv, _ := litFields(a)["Symbols"].(ssa.Instruction)
+		okOrder := sv != nil
+		for _, c := range callsIn(ser) {
+			if f := c.Common().StaticCallee(); f != nil && f.Name() == "convert" && sv != nil && !instrDominates(c, sv) && reachAvoiding(sv.Block(), c.Block(), nil) && sv.Block() != c.Block() {
+				okOrder = false
+			}
+		}
+		r.Check(okOrder, p.instrPos(a), p.FuncName(ser), "symbols read last", "the symbol table is captured after all checks and policies were interned", "the symbol table is captured before some check or policy is interned into it")
 	}
 	ld := authorizerMethod(p, "loadPoliciesV2")
 	if ld == nil {
@@ -654,4 +690,200 @@ func ruleENMatch(p *Prog, r *Reporter) {
 		}
 	}
 	r.Check(okExit, p.instrPos(rl.header.Instrs[0]), name, "mismatch result", "leaving the scan early yields false", "the scan can be left early with a result other than false")
+}
+
+type sharedAddr struct{ pos, what string }
+
+// loopSharedAddresses: stores of the address of a local declared OUTSIDE a loop into a field of an
+// object allocated INSIDE that loop (classic aliasing of one variable by every element).
+func loopSharedAddresses(p *Prog, fn *ssa.Function) []sharedAddr {
+	var out []sharedAddr
+	for _, l := range naturalLoops(fn) {
+		for b := range l.body {
+			for _, in := range b.Instrs {
+				st, ok := in.(*ssa.Store)
+				if !ok {
+					continue
+				}
+				al, isAl := st.Val.(*ssa.Alloc)
+				if !isAl || l.body[al.Block()] {
+					continue
+				}
+				fa, isFA := st.Addr.(*ssa.FieldAddr)
+				if !isFA {
+					continue
+				}
+				if holder, isH := fa.X.(*ssa.Alloc); isH && l.body[holder.Block()] {
+					out = append(out, sharedAddr{p.instrPos(st), typeName(deref(holder.Type())) + "." + fieldName(fa)})
+				}
+			}
+		}
+	}
+	return out
+}
+
+// countedLoop: for j := 0; j < len(X); j++
+type countedLoop struct {
+	*loop
+	phi   *ssa.Phi
+	bound ssa.Value // X
+}
+
+func countedLoops(fn *ssa.Function) []*countedLoop {
+	var out []*countedLoop
+	for _, l := range naturalLoops(fn) {
+		i := blockIf(l.header)
+		if i == nil {
+			continue
+		}
+		cmp, ok := i.Cond.(*ssa.BinOp)
+		if !ok || cmp.Op != token.LSS {
+			continue
+		}
+		ph, ok := cmp.X.(*ssa.Phi)
+		if !ok || ph.Block() != l.header {
+			continue
+		}
+		ln, ok := cmp.Y.(*ssa.Call)
+		if !ok {
+			continue
+		}
+		if bi, isB := ln.Call.Value.(*ssa.Builtin); !isB || bi.Name() != "len" {
+			continue
+		}
+		okPhi := true
+		for k, e := range ph.Edges {
+			if l.body[l.header.Preds[k]] {
+				inc, isInc := e.(*ssa.BinOp)
+				if !isInc || inc.Op != token.ADD || inc.X != ssa.Value(ph) {
+					okPhi = false
+				} else if c, isC := constInt(inc.Y); !isC || c != 1 {
+					okPhi = false
+				}
+			} else if c, isC := constInt(e); !isC || c != 0 {
+				okPhi = false
+			}
+		}
+		if okPhi {
+			out = append(out, &countedLoop{l, ph, ln.Call.Args[0]})
+		}
+	}
+	return out
+}
+
+func combineBody(p *Prog) *ssa.Function {
+	c := p.Func("datalog", "", "combine")
+	if c == nil || len(c.AnonFuncs) != 1 {
+		return nil
+	}
+	return c.AnonFuncs[0]
+}
+
+func ruleENUnify(p *Prog, r *Reporter) {
+	globalP = p
+	body := combineBody(p)
+	if body == nil {
+		r.Dunno("?", "datalog.combine", "goroutine", "combine or its single enumeration goroutine not found")
+		return
+	}
+	name := p.FuncName(body)
+	var ins *ssa.Call
+	for _, c := range callsIn(body) {
+		if cv, ok := c.(*ssa.Call); ok && isCallTo(&cv.Call, "datalog.MatchedVariables.Insert") {
+			ins = cv
+		}
+	}
+	if ins == nil {
+		r.Bad(p.Pos(body.Pos()), name, "unification", "no MatchedVariables.Insert in the join: variables are never bound/compared")
+		return
+	}
+	// outer: full range over the body predicates
+	var outer *rangeLoop
+	for _, rl := range rangeLoops(body) {
+		if rl.inside(ins.Block()) && strings.HasSuffix(p.D(rl.seq), "predicates") {
+			outer = rl
+		}
+	}
+	r.Check(outer != nil, p.instrPos(ins), name, "all body predicates", "variables are bound inside a full-range loop over the body predicates", "unification does not visit every body predicate (no full-range loop over the predicates around Insert)")
+	if outer == nil {
+		return
+	}
+	// inner: every term position of the predicate
+	var inner *countedLoop
+	for _, cl := range countedLoops(body) {
+		if (cl.body[ins.Block()] || (len(cl.header.Succs) > 0 && cl.header.Succs[0].Dominates(ins.Block()))) && strings.HasSuffix(p.D(cl.bound), ".Terms") && outer.isElemRoot(p, cl.bound) {
+			inner = cl
+		}
+	}
+	var innerR *rangeLoop
+	if inner == nil {
+		for _, rl := range rangeLoops(body) {
+			if rl != outer && rl.inside(ins.Block()) && strings.HasSuffix(p.D(rl.seq), ".Terms") && outer.isElemRoot(p, rl.seq) {
+				innerR = rl
+			}
+		}
+	}
+	r.Check(inner != nil || innerR != nil, p.instrPos(ins), name, "all term positions", "every term position of the current predicate is visited (loop over the full length of its Terms)", "unification does not visit every term position of a body predicate (positions are looked up through a map / partial loop): a variable repeated inside one predicate is not compared")
+	if inner == nil && innerR == nil {
+		return
+	}
+	var idx ssa.Value
+	if inner != nil {
+		idx = inner.phi
+	} else {
+		idx = innerR.incr
+	}
+	// key: Variable at position idx of the predicate; value: term at the same position of the matched fact
+	keyOK := dependsOn(ins.Call.Args[1], func(x ssa.Value) bool {
+		ia, ok := x.(*ssa.IndexAddr)
+		return ok && ia.Index == idx && strings.HasSuffix(p.D(ia.X), ".Terms")
+	})
+	valOK := dependsOn(ins.Call.Args[2], func(x ssa.Value) bool {
+		ia, ok := x.(*ssa.IndexAddr)
+		return ok && ia.Index == idx && strings.HasSuffix(p.D(ia.X), ".Predicate.Terms")
+	})
+	r.Check(keyOK && valOK, p.instrPos(ins), name, "same position", "the variable at position j is bound to the fact's term at the same position j", "the variable and the value given to Insert are not taken from the same term position of predicate and fact")
+}
+
+func ruleENExits(p *Prog, r *Reporter) {
+	globalP = p
+	body := combineBody(p)
+	if body == nil {
+		r.Dunno("?", "datalog.combine", "goroutine", "combine or its single enumeration goroutine not found")
+		return
+	}
+	name := p.FuncName(body)
+	for _, ret := range returnsOf(body) {
+		gs := guardsOf(ret.Block())
+		reason := ""
+		for _, g := range gs {
+			switch c := g.cond.(type) {
+			case *ssa.Call:
+				if isCallTo(&c.Call, "datalog.advanceIndexes") && !g.val {
+					reason = "index odometer exhausted (advanceIndexes returned false)"
+				}
+			case *ssa.BinOp:
+				d := p.D(c)
+				k, isC := constInt(c.Y)
+				switch {
+				case strings.Contains(d, "MatchedVariables.Complete(") && isNilConst(c.Y) && ((c.Op == token.NEQ) != g.val):
+					reason = "a head/expression variable is not bound by the body (Complete() == nil)"
+				case strings.HasPrefix(p.D(c.X), "len(") && strings.Contains(p.D(c.X), "predicates") && isC && k == 0 && ((c.Op == token.EQL) == g.val):
+					reason = "expression-only rule: evaluated once"
+				case strings.HasPrefix(p.D(c.X), "len(") && strings.Contains(p.D(c.X), "facts") && isC && k == 0 && ((c.Op == token.EQL) == g.val):
+					if reason == "" {
+						reason = "no facts to join"
+					}
+				case strings.HasSuffix(d, "#1!=nil)") && strings.Contains(d, "Expression.Evaluate(") && g.val:
+					reason = "an expression failed: the error was sent (or the consumer is gone)"
+				}
+				if ex, isEx := c.X.(*ssa.Extract); isEx && isC && c.Op == token.EQL && g.val {
+					if sel, isSel := ex.Tuple.(*ssa.Select); isSel && ex.Index == 0 && int(k) < len(sel.States) && sel.States[k].Dir == types.RecvOnly {
+						reason = "the consumer is gone (stop channel)"
+					}
+				}
+			}
+		}
+		r.Check(reason != "", p.instrPos(ret), name, "enumeration ends", reason, "the enumeration of fact combinations is abandoned on a path that is none of: odometer exhausted, no facts, unbound head variable, expression error, expression-only rule, consumer gone - remaining combinations (and the facts they derive) are lost")
+	}
 }
